@@ -15,7 +15,8 @@ def run(ctx, out):
     out.rule = ("generated source trees copied with -n into destinations pre-populated with colliding entries (regular files, "
                 "directories, FIFOs, live and dangling symlinks) at the first / a middle / the last entry of the walk order and "
                 "at any depth, or with no collision; both drivers, workers 1-4, random thread holds so workers are active when the "
-                "walker meets the collision; every pre-existing destination entry is compared before/after; non-trivial = at "
+                "walker meets the collision; every pre-existing destination entry is compared before/after (kind, bytes, mode, owner, xattrs, mtime); plus source links whose text designates an existing, "
+                "unmapped destination entry under --ownership / --fsync / --no-perms / --no-timestamps; non-trivial = at "
                 "least one collision; distinct = (tree, collisions, driver)")
     d0 = ctx.work.fresh("c08")
     n = 50 if quick else 1200
@@ -269,6 +270,52 @@ def run(ctx, out):
                     out.violation("--no-clobber: the existing entry dst/victim was overwritten through a symlink created by the "
                                   "same run (two sources map onto dst/x; exit %d)" % r.exit, rep)
                 shutil.rmtree(d, ignore_errors=True)
+
+    # source links whose TEXT, read from the place the copy of the link lands, designates an entry that already exists in
+    # the destination and that no source maps onto (so the run is valid and must succeed): with every metadata option —
+    # ownership, permissions, timestamps, xattrs, fsync — whatever is applied to the new link must stop at the link
+    for k in range(8 if quick else 120):
+        d = os.path.join(d0, "lt%d" % k)
+        os.makedirs(os.path.join(d, "src", "sub"))
+        os.makedirs(os.path.join(d, "dst", "bydir"))
+        open(os.path.join(d, "dst", "bystander.txt"), "wb").write(b"bystander, existing before the run\n")
+        os.chmod(os.path.join(d, "dst", "bystander.txt"), 0o640)
+        open(os.path.join(d, "dst", "bydir", "inner"), "wb").write(b"inner")
+        open(os.path.join(d, "outside.txt"), "wb").write(b"outside")
+        open(os.path.join(d, "src", "a"), "wb").write(b"a" * 3000)
+        open(os.path.join(d, "src", "sub", "f"), "wb").write(b"f" * 10)
+        os.symlink("../../bystander.txt", os.path.join(d, "src", "sub", "l1"))     # from dst/src/sub: dst/bystander.txt
+        os.symlink(os.path.join(d, "dst", "bydir"), os.path.join(d, "src", "sub", "l2"))
+        os.symlink("../bystander.txt", os.path.join(d, "src", "l3"))
+        os.symlink(os.path.join(d, "outside.txt"), os.path.join(d, "src", "l4"))
+        for root, dirs, files in os.walk(os.path.join(d, "src")):
+            for nme in dirs + files:
+                os.chown(os.path.join(root, nme), 4242, 4343, follow_symlinks=False)
+        os.chown(os.path.join(d, "src"), 4242, 4343)
+        os.utime(os.path.join(d, "dst", "bystander.txt"), ns=(10 ** 18, 10 ** 18 + 5))
+        before = xcp.snapshot(os.fsencode(d))
+        driver = ["parfile", "parblock"][k % 2]
+        extra = [["--ownership"], ["--ownership", "--fsync"], [], ["--no-perms", "--ownership"], ["--ownership", "--no-timestamps"]][(k // 2) % 5]
+        argv = [ctx.bins["xcp"], "-r", "-n", "--driver", driver, "-w", str(rng.choice([1, 2, 4]))] + extra + ["src", "dst"]
+        r = xcp.run_supervised(sup, argv, d, d, tag="lt", timeout_ms=30000)
+        after = xcp.snapshot(os.fsencode(d))
+        out.case(("link-text-existing", k, driver, tuple(extra)), True)
+        out.count("link_text_designates_existing_entry")
+        rep = dict(kind="links whose text designates existing destination entries", argv=argv[1:], exit=r.exit, stderr=r.stderr[-200:])
+        bad = None
+        for p_, e in before.items():
+            if not (p_.startswith(b"dst") or p_ == b"outside.txt") or p_ == b"dst":
+                continue
+            a = after.get(p_)
+            keys = ("kind", "mode", "uid", "gid", "size", "sha", "link", "xattr") + (("mtime_ns",) if e["kind"] == "file" else ())
+            if a is None or any(e.get(x) != a.get(x) for x in keys):
+                bad = "%r was %s" % (p_, "removed" if a is None else "altered (%s)" % {x: (e.get(x), a.get(x)) for x in keys if e.get(x) != a.get(x)})
+                break
+        if bad:
+            out.violation("--no-clobber: an existing entry designated by the text of a copied link: " + bad, rep)
+        elif r.exit != 0:
+            out.corr("R1-noclobber-no-collision-failed", rep, "exit 0", r.exit)
+        shutil.rmtree(d, ignore_errors=True)
 
     # -n with -f
     d = os.path.join(d0, "nf")
